@@ -50,9 +50,10 @@ def main():
                 if plan["stage"] not in staged:
                     staged[plan["stage"]] = stage_program(seed, plan["stage"])
                 a = staged[plan["stage"]]
+                saved_path = os.path.join(tmp, "Saved_%d_%d.bin" % (seed, pi))
                 path = os.path.join(tmp, "Main.bin")
-                utils.dump_program(path, a)
-                b = utils.load_program(path)
+                utils.dump_program(saved_path, a)
+                b = utils.load_program(saved_path)
                 steps = []
                 for k, op in enumerate(plan["ops"]):
                     exc = ""
@@ -60,26 +61,34 @@ def main():
                     def both(f):
                         """apply f to each copy; an exception is an observation like any other (it must be the same on both)"""
                         res = []
-                        for x in (a, b):
+                        for x, inplace in ((a, False), (b, True)):     # the loaded copy is mutated in place, as --replay does
                             try:
-                                res.append(f(x))
+                                res.append(f(x, inplace))
                             except Exception as e:  # noqa: BLE001
                                 res.append((x, "exc:" + type(e).__name__))
                         return res
                     if op == "translate_own":
-                        (a, oa), (b, ob) = both(lambda x: (x, text(x)))
+                        (a, oa), (b, ob) = both(lambda x, ip: (x, text(x)))
                     elif op == "translate_other":
-                        (a, oa), (b, ob) = both(lambda x: (x, text(x, OTHER[lang])))
+                        (a, oa), (b, ob) = both(lambda x, ip: (x, text(x, OTHER[lang])))
                     elif op == "erase":
-                        def f(x):
-                            y, t = genlib.erase(x, seed + 10 + k)
+                        def f(x, ip):
+                            y, t = genlib.erase(x, seed + 10 + k, inplace=ip)
                             return y, "%s/%s" % (t.is_transformed, text(y))
                         (a, oa), (b, ob) = both(f)
                     elif op == "overwrite":
-                        def f(x):
-                            y, t = genlib.overwrite(x, seed + 10 + k)
+                        def f(x, ip):
+                            y, t = genlib.overwrite(x, seed + 10 + k, inplace=ip)
                             return y, "%s/%s" % (t.error_injected, text(y))
                         (a, oa), (b, ob) = both(f)
+                    elif op == "reload":
+                        # read the saved file again: it must still be the program that was saved, whatever happened to earlier copies
+                        a = staged[plan["stage"]]
+                        try:
+                            b = utils.load_program(saved_path)
+                        except Exception as e:  # noqa: BLE001
+                            exc = type(e).__name__ + ": " + str(e)[:80]
+                        oa, ob = text(a), text(b)
                     elif op == "redump":
                         try:
                             utils.dump_program(path, b)
